@@ -78,7 +78,7 @@ impl ExcHandler {
     #[verifier::external_body]
     fn has_catch_block(&self) -> bool { unimplemented!() }
 }
-//@struct file=yarel/src/object.rs name=ObjFiber keepfields=caller,stack,frames,return_ip,return_value,error_ip,handling_exception map "*const u8" => "usize" map "Stack<Value, STACK_MAX>" => "StackS" addfield "pub ghost closed_from: int" addfield "pub ghost has_handler: bool"
+//@struct file=yarel/src/object.rs name=ObjFiber keepfields=caller,stack,frames,return_ip,return_value,error_ip,handling_exception,pending_exception,return_handler_count,exc_handlers map "*const u8" => "usize" map "Stack<Value, STACK_MAX>" => "StackS" addfield "pub ghost closed_from: int" addfield "pub ghost has_handler: bool"
 impl ObjFiber {
     //@fn file=yarel/src/object.rs path=ObjFiber::has_finished ret=r
     //@  ensures r == (self.frames@.len() == 0)
@@ -104,6 +104,11 @@ impl ObjFiber {
     fn pop_exc_handler(&mut self) -> (r: Option<ExcHandler>)
         ensures final(self).frames == old(self).frames, final(self).caller == old(self).caller, final(self).closed_from == old(self).closed_from,
             old(self).has_handler ==> r is Some,
+    { unimplemented!() }
+    // object.rs take_return_data: forgets a parked return (its own contract: unit exc)
+    #[verifier::external_body]
+    fn take_return_data(&mut self) -> (r: Option<(Value, usize)>)
+        ensures final(self).frames == old(self).frames, final(self).caller == old(self).caller, final(self).closed_from == old(self).closed_from, final(self).has_handler == old(self).has_handler,
     { unimplemented!() }
     #[verifier::external_body]
     fn current_frame(&self) -> (r: Option<&CallFrame>)
